@@ -119,8 +119,10 @@ def check_role(role: str, sl: T.Term, op: str, o: Outcome, ctx: Dict[str, Any]) 
     if role == "ARG:days":
         days = ("sym", "days", ("set", ("enum", "aioswitcher.schedule:Days")))
         lit = F.literal(sl)
-        some = ("cmp", ">", ("len", days), c(0)) in pc
-        none = ("cmp", "<=", ("len", days), c(0)) in pc
+        # a length is never negative: len > 0, len != 0, len >= 1 and the truth of the collection are one test
+        ln = ("len", days)
+        some = any(g in pc for g in (("cmp", ">", ln, c(0)), ("cmp", "!=", ln, c(0)), ("cmp", ">=", ln, c(1)), ("truthy", days)))
+        none = any(g in pc for g in (("cmp", "<=", ln, c(0)), ("cmp", "==", ln, c(0)), ("cmp", "<", ln, c(1)), ("not", ("truthy", days))))
         if lit is not None:
             return (lit == "00" and none), f"day mask is the constant {lit} (non-recurring) on a path where len(days)>0 is {some}"
         e = ("sym", "$e", ("enum", "aioswitcher.schedule:Days"))
